@@ -1,11 +1,241 @@
-(** * C12 - units: every name recognised, every conversion physically right. *)
-From Coq Require Import List ZArith NArith Bool String.
-From RG Require Import Base.Str Base.Num Gen.GenUnits Model.Recipe Model.Units.
+(** * C12 - units: every name recognised, every conversion physically right.
+
+    Property theorems only; proofs are in Proofs/Units*.v.  The unit table,
+    the regex alternation and the regex engine's character classes are
+    GENERATED from the checkout on every run (Gen/GenUnits.v); statements
+    quantified over [all_names] are proved by complete enumeration of that
+    finite table ([vm_compute]) and lifted with [forallb_forall]; everything
+    else (spellings, surrounding text, values) is universally quantified. *)
+From Coq Require Import List ZArith NArith QArith Qabs Bool String.
+From RG Require Import Base.Str Base.Num Gen.GenUnits Model.Recipe Model.Units Spec.UnitsRef
+  Proofs.UnitsScan Proofs.UnitsTable Proofs.UnitsAlt Proofs.UnitsTail.
 Import ListNotations.
+
+(** ** The table *)
+Theorem C12_table_builds : exists y, the_system = Ok y.
+Proof. exact table_builds. Qed.
+Print Assumptions C12_table_builds.
+
+(** The names the scanner and the conversions know are exactly the names the
+    documentation prints (the table's name tuples, in order), which is also
+    what the implementation's [iter_names] returned to the translator. *)
+Theorem C12_names_are_documented : all_names = documented_names /\ all_names = impl_iter_names.
+Proof. exact (conj table_names_documented table_iter_names). Qed.
+Print Assumptions C12_names_are_documented.
+
+Theorem C12_names_distinct : NoDup all_names.
+Proof. exact (nodup_b_NoDup _ table_names_nodup). Qed.
+Print Assumptions C12_names_distinct.
+
+(** callers look names up after [.lower()]: every ASCII letter-case variant
+    of a name lower-cases to the name *)
+Theorem C12_names_lowercase : forall n v, In n all_names -> case_variant n v -> py_lower v = n.
+Proof. exact case_variant_lower. Qed.
+Print Assumptions C12_names_lowercase.
+
+(** ** Recognition *)
+(** every letter-case variant is a spelling ... *)
+Theorem C12_case_variants_spelled : forall n v, In n all_names -> case_variant n v -> spelled n v.
+Proof. exact case_variant_spelled. Qed.
+Print Assumptions C12_case_variants_spelled.
+
+(** ... and EVERY spelling (any character the engine folds onto a letter, any
+    white space run for a space) followed by the end of the text or a
+    non-word character is recognised, whole. *)
+Theorem C12_every_name_recognised : forall n v rest,
+  In n all_names -> spelled n v -> boundary_after rest -> known_unit (v ++ rest) = Some (v, rest).
+Proof. exact every_name_recognised. Qed.
+Print Assumptions C12_every_name_recognised.
+
+(** The longest name wins: whatever the ordered alternation returns on ANY
+    input, a documented name that is followed by a word boundary at that
+    position is the result (so a name is never cut short by one of its
+    proper prefixes - "g"/"gram"/"grams", "l"/"lb"/"litre", "tsp"/"tsps", ... -
+    although the shorter alternative is tried first). *)
+Theorem C12_longest_wins : forall x m r n v r',
+  known_unit x = Some (m, r) -> In n all_names -> spelled n v -> x = v ++ r' -> boundary_after r' ->
+  m = v /\ r = r'.
+Proof. exact longest_wins. Qed.
+Print Assumptions C12_longest_wins.
+
+Theorem C12_known_unit_sound : forall x m r,
+  known_unit x = Some (m, r) ->
+  x = m ++ r /\ exists n, In n all_names /\ spelled n m /\ word_boundary (last_opt m) (hd_error r) = true.
+Proof. exact known_unit_sound. Qed.
+Print Assumptions C12_known_unit_sound.
+
+(** in a quantity: with or without horizontal space before the unit; the
+    preposition and the remaining text partition what follows *)
+Theorem C12_recognised_in_quantity : forall n v sp rest,
+  In n all_names -> spelled n v -> hsp_run sp -> boundary_after rest ->
+  exists p r, implicit_tail (sp ++ v ++ rest) = Some (sp, v, p, r) /\ rest = p ++ r.
+Proof. exact recognised_in_quantity. Qed.
+Print Assumptions C12_recognised_in_quantity.
+
+Theorem C12_preposition_of_the : forall w1 o w2 th rest,
+  hsp_run w1 -> w1 <> [] -> ci_word [111; 102]%N o -> hsp_run w2 -> w2 <> [] -> ci_word [116; 104; 101]%N th ->
+  boundary_after rest ->
+  hsp (w1 ++ o ++ w2 ++ th ++ rest) = Some (w1, o ++ w2 ++ th ++ rest) /\
+  preposition (o ++ w2 ++ th ++ rest) = Some (o ++ w2 ++ th, rest).
+Proof. exact preposition_of_the. Qed.
+Print Assumptions C12_preposition_of_the.
+
+Theorem C12_preposition_of : forall o rest,
+  ci_word [111; 102]%N o -> boundary_after rest ->
+  (forall w r2, hsp rest = Some (w, r2) -> match_ci_lit [116; 104; 101]%N r2 = None) ->
+  preposition (o ++ rest) = Some (o, rest).
+Proof. exact preposition_of. Qed.
+Print Assumptions C12_preposition_of.
+
+(** ** Conversions (all ordered pairs / triples of names) *)
+(** [ideal a b] is the ratio of the legal sizes (Spec/UnitsRef.v); [ideal_tol]
+    is 1e-12 (binary64 rounding along the path) plus the accuracy to which
+    units.py states the cup (5e-8) and the pint (5e-7); a factor on a
+    float-free path equals the ideal exactly. *)
+Theorem C12_factor_physical : forall a b, In a all_names -> In b all_names -> same_kind a b = true ->
+  exists f q, convert_between a b = Ok f /\ ideal a b = Some q /\
+              (Qabs (to_Q f - q) <= q * ideal_tol a b)%Q /\ (is_float f = false -> exact_num f /\ (to_Q f == q)%Q).
+Proof. exact factor_physical. Qed.
+Print Assumptions C12_factor_physical.
+
+Theorem C12_reciprocal : forall a b, In a all_names -> In b all_names -> same_kind a b = true ->
+  exists f g, convert_between a b = Ok f /\ convert_between b a = Ok g /\
+              (Qabs (to_Q f * to_Q g - 1) <= 1 * tol50)%Q /\
+              (is_float f = false -> is_float g = false -> (to_Q f * to_Q g == 1)%Q).
+Proof. exact reciprocal. Qed.
+Print Assumptions C12_reciprocal.
+
+Theorem C12_transitive : forall a b c, In a all_names -> In b all_names -> In c all_names ->
+  same_kind a b = true -> same_kind b c = true ->
+  exists f g h, convert_between a b = Ok f /\ convert_between b c = Ok g /\ convert_between a c = Ok h /\
+    (Qabs (to_Q f * to_Q g - to_Q h) <= to_Q h * tol50)%Q /\
+    (is_float f = false -> is_float g = false -> is_float h = false -> (to_Q f * to_Q g == to_Q h)%Q).
+Proof. exact transitive. Qed.
+Print Assumptions C12_transitive.
+
+Theorem C12_refused_across_kinds : forall a b, In a all_names -> In b all_names -> same_kind a b = false ->
+  convert_between a b = Err KeyError.
+Proof. exact refused_across_kinds. Qed.
+Print Assumptions C12_refused_across_kinds.
+
+(** ** The alternative-unit list *)
+(** For every name: the walk raises nothing; after sorting, the unit itself
+    comes first with the factor [Fraction(1)], no other unit has a factor equal
+    to 1 (so the sanity assert of [render_quantity] compares the right entry),
+    every unit of the kind is listed exactly once, with the factor
+    [convert_between] gives, exact factors before float factors. *)
+Theorem C12_alt_list : forall u, In u all_names ->
+  exists l n0 rest,
+    iter_conversions_from u = (l, None) /\
+    sorted_conversions l = (frac_one, n0) :: rest /\
+    canon u = Some n0 /\
+    (forall p, In p rest -> num_eqb (fst p) (NInt 1) = false) /\
+    NoDup (n0 :: map snd rest) /\
+    (forall w, In w (n0 :: map snd rest) <-> In w (kind_units u)) /\
+    (forall sc w, In (sc, w) ((frac_one, n0) :: rest) -> convert_between u w = Ok sc) /\
+    exact_first rest = true.
+Proof. exact alt_list. Qed.
+Print Assumptions C12_alt_list.
+
+(** ... hence for every value: the quantity as written, then value x factor
+    for each other unit ([scale_forms] is that list, [scale_forms_spec]). *)
+Theorem C12_alt_forms_value : forall v uw u l n0 rest forms,
+  py_lower uw = u -> iter_conversions_from u = (l, None) ->
+  sorted_conversions l = (frac_one, n0) :: rest ->
+  value_ok v -> scale_forms v rest = Ok forms ->
+  alt_forms v uw = Ok ((v, uw) :: forms) /\
+  Forall2 (fun f p => nmul v (fst p) = NOk (fst f) /\ snd f = snd p) forms rest.
+Proof.
+  intros v uw u l n0 rest forms H1 H2 H3 H4 H5.
+  exact (conj (alt_forms_value v uw u l n0 rest forms H1 H2 H3 H4 H5) (scale_forms_spec v rest forms H5)).
+Qed.
+Print Assumptions C12_alt_forms_value.
+
+(** the sanity assert cannot fail for int and Fraction values ... *)
+Theorem C12_assert_cannot_fail_exact : (forall z, value_ok (NInt z)) /\ (forall n d, value_ok (NFrac n d)).
+Proof. exact (conj value_ok_int value_ok_frac). Qed.
+Print Assumptions C12_assert_cannot_fail_exact.
+
+(** ... and for floats that are binary64 numbers.  PARTIAL: [representable]
+    (rounding the float's own exact value gives it back) is an invariant of
+    every Python float, but it is a hypothesis here: the general round-trip
+    lemma for Base/Num.v's [b64] is not proved. *)
+Theorem C12_assert_cannot_fail_float_partial : forall m e, representable (NFloat m e) -> value_ok (NFloat m e).
+Proof. exact value_ok_float. Qed.
+Print Assumptions C12_assert_cannot_fail_float_partial.
+
+(** ** Equal amounts *)
+(** FULL statement aimed at: for all quantities a b with known units,
+      has_equal_value_to a b = Ok true  <->  |amount a - amount b| <= ~1e-9 * max (to within rounding error).
+    PROVED (partial): the direction "same physical amount => equal" for int /
+    Fraction values and float-free conversion paths (kg/g, oz/lb, l/ml/tsp/tbsp
+    and aliases), exactly; and "different kinds => never equal".  MISSING: the
+    converse bound and the float paths (lb<->g, cup, pint), which need an
+    error analysis of [b64] (|b64 q - q| <= 2^-53 |q|) that is not proved;
+    they are covered by the correspondence suite [equal] (boundary values at
+    0.9e-9 / 1.0e-9 / 1.1e-9 relative) and its oracle only. *)
+Theorem C12_equal_amounts_exact_partial : forall a b ua ub f q,
+  q_unit a = Some ua -> q_unit b = Some ub ->
+  In (py_lower ua) all_names -> In (py_lower ub) all_names ->
+  same_kind (py_lower ub) (py_lower ua) = true ->
+  convert_between (py_lower ub) (py_lower ua) = Ok f -> is_float f = false ->
+  exact_num (q_value a) -> exact_num (q_value b) ->
+  (exists fa, to_float (q_value a) = NOk fa) ->
+  ideal (py_lower ub) (py_lower ua) = Some q ->
+  (to_Q (q_value a) == to_Q (q_value b) * q)%Q ->
+  has_equal_value_to a b = Ok true.
+Proof. exact equal_amounts_exact. Qed.
+Print Assumptions C12_equal_amounts_exact_partial.
+
+Theorem C12_unequal_across_kinds : forall a b ua ub,
+  q_unit a = Some ua -> q_unit b = Some ub ->
+  In (py_lower ua) all_names -> In (py_lower ub) all_names ->
+  same_kind (py_lower ub) (py_lower ua) = false ->
+  has_equal_value_to a b = Ok false.
+Proof. exact unequal_across_kinds. Qed.
+Print Assumptions C12_unequal_across_kinds.
+
+(** ** Non-vacuity *)
 Open Scope string_scope.
 
-Example C12_examples :
+Example C12_ex_names : In (s "grams") all_names /\ In (s "tea spoons") all_names /\ List.length all_names = 68%nat.
+Proof. vm_compute. repeat split; tauto. Qed.
+
+(** proper-prefix pairs exist and the shorter one comes first in the regex *)
+Example C12_ex_prefix_pairs :
+  In (s "g", s "grams") prefix_pairs /\ In (s "l", s "lb") prefix_pairs /\ In (s "tsp", s "tsps") prefix_pairs /\
+  In (s "pinch", s "pinches") prefix_pairs /\ In (s "tea spoon", s "tea spoons") prefix_pairs /\
+  (30 < List.length prefix_pairs)%nat.
+Proof. vm_compute. repeat split; tauto || Lia.lia. Qed.
+
+Example C12_ex_scanner :
+  known_unit (s "GrAmS of flour") = Some (s "GrAmS", s " of flour") /\
+  known_unit (s "lbs") = Some (s "lbs", []) /\
+  known_unit (s "gx") = None /\
+  implicit_tail (s " Tea   Spoons of the sugar") = Some (s " ", s "Tea   Spoons", s " of the", s " sugar").
+Proof. vm_compute. repeat split; reflexivity. Qed.
+
+Example C12_ex_spelled : case_variant (s "tsp") (s "TsP") /\ boundary_after (s ". x") /\ hsp_run (s " ").
+Proof. split; [|split; vm_compute; reflexivity]. apply (cv_upper 116%N), cv_same, (cv_upper 112%N), cv_nil. Qed.
+
+Example C12_ex_convert :
   convert_between (s "kg") (s "g") = Ok (NFrac 1000 1) /\
-  known_unit (s "grams of") = Some (s "grams", s " of").
-Proof. vm_compute. split; reflexivity. Qed.
-Print Assumptions C12_examples.
+  convert_between (s "ounces") (s "pounds") = Ok (NFrac 1 16) /\
+  same_kind (s "cups") (s "tea spoon") = true /\ same_kind (s "g") (s "l") = false /\
+  exact_num (NFrac 1 16) /\ representable (NFloat 5 (-1)).
+Proof. vm_compute. repeat split; reflexivity. Qed.
+
+(** the equal-amount theorem applies: 1 kg = 1000 g, 3 tsp = 1 tbsp *)
+Example C12_ex_equal :
+  has_equal_value_to (mkQ (NInt 1000) (Some (s "G")) [] []) (mkQ (NInt 1) (Some (s "Kg")) [] []) = Ok true /\
+  has_equal_value_to (mkQ (NInt 3) (Some (s "tsp")) [] []) (mkQ (NInt 1) (Some (s "tbsp")) [] []) = Ok true /\
+  has_equal_value_to (mkQ (NInt 1) (Some (s "g")) [] []) (mkQ (NInt 1) (Some (s "ml")) [] []) = Ok false /\
+  (* tolerance: distinct exactly-representable amounts within 1e-9 compare equal (documented tolerance) *)
+  has_equal_value_to (mkQ (NInt 10000000000) (Some (s "g")) [] []) (mkQ (NInt 10000000001) (Some (s "g")) [] []) = Ok true.
+Proof. vm_compute. repeat split; reflexivity. Qed.
+
+Example C12_ex_alt :
+  alt_forms (NInt 3) (s "Tsp") =
+    Ok [(NInt 3, s "Tsp"); (NFrac 3 200, s "l"); (NFrac 15 1, s "ml"); (NFrac 1 1, s "tbsp");
+        (NFloat 1142136133403037 (-54), s "cup"); (NFloat 1902055412159059 (-56), s "pint")].
+Proof. vm_compute. reflexivity. Qed.
